@@ -336,6 +336,11 @@ def main():
         os.makedirs(os.path.join(VERIF, 'evidence'), exist_ok=True)
         with open(os.path.join(VERIF, 'evidence', pid + '.json'), 'w') as fh:
             json.dump(ev, fh, indent=1)
+        if a.tier == 'thorough' and not a.groups and a.repo == '/repo':
+            # the last complete thorough run is kept next to the per-property file (which the next quick run rewrites)
+            os.makedirs(os.path.join(VERIF, 'evidence', 'thorough'), exist_ok=True)
+            with open(os.path.join(VERIF, 'evidence', 'thorough', pid + '.json'), 'w') as fh:
+                json.dump(ev, fh, indent=1)
     print('%s tier=%s evaluations=%d nontrivial=%d states=%d transitions=%d failing=%d known=%d new=%d '
           'exhaustive=%s build=%.0fs wall=%.0fs' % (pid, a.tier, tot['evaluations'], tot['nontrivial'], tot['states'],
                                                    tot['transitions'], len(fails), len(fails) - len(new), len(new),
